@@ -1,7 +1,7 @@
 (** Extraction of the executable model to OCaml (ExtrOcamlBasic only: bool, option, unit, list,
     prod, sumbool, comparison map to OCaml's; nat, positive, N stay the extracted datatypes). *)
-From RC Require Import Hdr Machine Inv.
+From RC Require Import Hdr Machine Inv Cover.
 Require Extraction.
 Require Import ExtrOcamlBasic.
 Extraction Language OCaml.
-Extraction "../ocaml/model.ml" init exec_top run_main get_fuse cur_flags should_collect inv_b no_bad exact_b no_panic_yet.
+Extraction "../ocaml/model.ml" init exec_top run_main get_fuse cur_flags should_collect inv_b no_bad exact_b no_panic_yet cover_b.
